@@ -1145,13 +1145,13 @@ def run(ctx):
                 t = head.decode("latin-1") + sep.decode() + rest.decode("utf-8")
             except UnicodeDecodeError:
                 continue
-            if skip_resp_stream(t):
-                continue
-            cases.append((cpair("true", cstr(t)), observe_resp_from_file(True, t), dict(meta, text=True)))
+            if skip_resp_stream(t) or any(m.group(1).strip('"').lower() != "utf-8" for m in re.finditer(r"charset=([^\s;]*)", t, re.I)):
+                continue                 # (a text file is encoded with the response's charset; the model's conv is utf-8)
+            cases.append((cpair("true", cstr(t)), observe_resp_from_file(True, t), dict(meta, text=True, stream=[ord(c) for c in t])))
         else:
             if skip_resp_stream(wire.decode("latin-1")):
                 continue
-            cases.append((cpair("false", cstr(wire)), observe_resp_from_file(False, wire), meta))
+            cases.append((cpair("false", cstr(wire)), observe_resp_from_file(False, wire), dict(meta, stream=wire.hex())))
         if textual and rng.random() < 0.5:
             r = Response(status=st, headerlist=list(hl), app_iter=[body])
             scases.append((cpair(cresp(st, hl, body), cstr(body.decode("utf-8"))), str(r), meta))
@@ -1250,7 +1250,23 @@ def skip_resp_stream(t):
         int(line0)
         return True
     except ValueError:
-        return False
+        pass
+    # a first Content-Length that int() refuses: ValueError today, "no length" once C12's parse_int_safe repair
+    # (fixes/C12-01) is applied - the outcome belongs to C12 (total getters), not to this property
+    for line in t.split("\n")[1:]:
+        line = line.strip(" \t\n\r\x0b\x0c")
+        if not line:
+            break
+        name, sep, value = line.partition(":")
+        if sep and name.lower() == "content-length":
+            value = value.strip(" \t\n\r\x0b\x0c")
+            if value:
+                try:
+                    int(value)
+                except ValueError:
+                    return True
+            break
+    return False
 
 
 def nontrivial_msg(nheaders, body):
